@@ -363,6 +363,62 @@ fn library_misc(c: &mut Ctx, m: &'static Merchant) {
 }
 
 fn context_cases(c: &mut Ctx) {
+    // distinct context inputs must give distinct contexts: a corpus of related inputs (an input, its
+    // SHA3-256 digest as a 32-byte input, the digest of that, paddings, prefixes, the empty string)
+    c.case("context/related-inputs", |c| {
+        use sha3::{Digest, Sha3_256};
+        use std::collections::HashMap;
+        let mut rng = c.rng("context/related-inputs");
+        let mut corpus: Vec<Vec<u8>> = vec![vec![], vec![0u8], vec![0u8; 32], vec![0xff; 32], vec![0u8; 31], vec![0u8; 33]];
+        for len in [1usize, 5, 21, 27, 31, 32, 33, 64, 100] {
+            for _ in 0..c.tier.pick(3, 30) {
+                let mut t = vec![0u8; len];
+                rng.fill_bytes(&mut t);
+                let d1 = Sha3_256::digest(&t).to_vec();
+                let d2 = Sha3_256::digest(&d1).to_vec();
+                let mut padded = t.clone();
+                padded.push(0);
+                corpus.push(d1);
+                corpus.push(d2);
+                corpus.push(padded);
+                if len > 1 {
+                    corpus.push(t[..len - 1].to_vec());
+                }
+                corpus.push(t);
+            }
+        }
+        corpus.sort();
+        corpus.dedup();
+        let mut seen: HashMap<[u8; 32], Vec<u8>> = HashMap::new();
+        for inp in &corpus {
+            c.eval();
+            c.distinct(&format!("context-related/{}", hex(&inp[..inp.len().min(16)])));
+            let d = Context::new(inp).as_bytes();
+            if let Some(prev) = seen.insert(d, inp.clone()) {
+                c.violation(
+                    "C12 challenge-unchanged level=library type=Context-related-inputs",
+                    json!({"input_a": hex(&prev), "input_b": hex(inp), "context": hex(&d)}),
+                );
+            }
+        }
+        c.count("context_inputs_compared", corpus.len() as i64);
+    });
+    // both public constructors of the challenge builder start the same transcript
+    c.case("builder/constructors", |c| {
+        let mut rng = c.rng("builder/constructors");
+        for k in 0..c.tier.pick(20, 200) {
+            c.eval();
+            c.distinct(&format!("constructors/{}", k));
+            let s = Scalar::random(&mut rng);
+            let mut b = vec![0u8; (rng.next_u32() % 50) as usize];
+            rng.fill_bytes(&mut b);
+            let a = ChallengeBuilder::new().with(&s).with_bytes(&b).finish().to_scalar();
+            let d = ChallengeBuilder::default().with(&s).with_bytes(&b).finish().to_scalar();
+            if a != d || ChallengeBuilder::new().finish().to_scalar() != ChallengeBuilder::default().finish().to_scalar() {
+                c.violation("C12 prover-verifier-challenge-differ constructors=new-vs-default", json!({"k": k}));
+            }
+        }
+    });
     c.case("context/bytes", |c| {
         let mut rng = c.rng("context/bytes");
         let maxlen = c.tier.pick(64usize, 160);
